@@ -474,11 +474,12 @@ def _def_is_max_filtered(g, d, var, attach) -> (bool, str):
         ok, why = _collection_filtered(g, v.value.id, d)
         if ok:
             return True, ''
-        # direct test between the definition and the attach
-        for t, lab in dom.guards_of(g, attach):
-            if t.kind == 'test' and unparse(t.ast) in (f"{var}.max_is_reached",) and lab == 'F' and g.path_avoiding(d, attach, avoid=[t]) is None:
-                return True, ''
-            if t.kind == 'test' and unparse(t.ast) in (f"not {var}.max_is_reached",) and lab == 'T' and g.path_avoiding(d, attach, avoid=[t]) is None:
-                return True, ''
+        # direct test between the definition and the attach: every path from this definition to the attach passes a test of
+        # `<var>.max_is_reached` whose true edge rejects
+        tests = [t for t in g.stmt_nodes() if t.kind == 'test' and unparse(t.ast) == f"{var}.max_is_reached" and dom.branch_raises(g, t, 'T')]
+        tests += [t for t in g.stmt_nodes() if t.kind == 'test' and unparse(t.ast) in (f"{var}.max_is_reached is False", f"{var}.max_is_reached == False")
+                  and dom.branch_raises(g, t, 'F')]
+        if tests and g.path_avoiding(d, attach, avoid=tests) is None:
+            return True, ''
         return False, why + "; and the selected leaf is not tested before the attach"
     return False, "the attach target is not taken from a collection of candidate leaves"
